@@ -7,7 +7,8 @@ ROOT = os.path.abspath(os.path.join(HERE, ".."))
 
 COMMON_NOTE = ("Trusted base: Lean 4.33 kernel (thorough tier: leanchecker re-check), axioms ⊆ {propext, Classical.choice, "
                "Quot.sound} (audited by #print axioms on every Cxx_* theorem each run; no sorry/native_decide/bv_decide/own axioms), "
-               "gen/gen_layout.py (layout measured through the package), the correspondence harness and the compiled model driver. "
+               "gen/gen_layout.py (layout measured through the package), gen/gen_helpers.py + lean/Traph/Py.lean (translator of helpers.py and the meaning of its "
+               "Python primitives), the correspondence harness and the compiled model driver. "
                "Modelled, not verified: CPython bytes/dict/Counter/heapq/generator semantics, struct, the re engine on Hyphe's rule family, "
                "OS files as byte arrays. ")
 
@@ -35,13 +36,13 @@ def main():
         })
     m = {
         "version": 1,
-        "setup_cmd": "cd lean && lake build Traph driver Proofs Props",
+        "setup_cmd": "cd lean && lake build Traph driver Proofs Props Gen",
         "hooks": {"guard": "HYPHE_TRAPH_VERIF", "enable": "no source hooks are used: the harness wraps FileStorage.write / MemoryStorage.write / "
                   "TraphIteratorState.should_yield in its own process", "baseline_off_cmd": "cd /repo && /venv/bin/python -m pytest -q -p no:cacheprovider",
                   "source_commits": [], "add_only": True},
         "engines": [{"name": "lean-model+correspondence", "path": "lean/ harness/ gen/ bin/", "serves_properties": sorted(P),
                      "kind_free_text": "hand-written executable Lean 4 model (byte-exact), theorems in lean/Props, layout regenerated from /repo "
-                                       "every run, correspondence check model vs real code on generated op sequences (file and memory back-ends), "
+                                       "every run, helpers.py translated to Lean every run and proved equal to the model (lean/Gen), correspondence check model vs real code on generated op sequences (file and memory back-ends), "
                                        "Python reference oracle as failing-input finder"}],
         "checks": checks,
         "notes": "See DESIGN.md. Checks honour VERIF_SEED / VERIF_TIER / TRAPH_REPO (tree under test, default /repo).",
